@@ -20,6 +20,10 @@ JAR = "/opt/veriftools/tla/tla2tools.jar:/opt/veriftools/tla/CommunityModules-de
 TLA_ERR_CODES = {}
 
 
+import threading
+_spec_copy_lock = threading.Lock()
+
+
 class Undecided(Exception):
     """The machinery could not decide (exit 2)."""
 
@@ -83,14 +87,17 @@ class Ctx:
         litter and relative trace files stay in scratch. Returns the directory; all
         modules and cfgs are flattened into it."""
         d = os.path.join(self.work, name)
-        if os.path.isdir(d):
-            return d
-        os.makedirs(d)
-        src = os.path.join(VERIF, "spec")
-        for root, dirs, files in os.walk(src):
-            for f in files:
-                if f.endswith((".tla", ".cfg")):
-                    shutil.copy(os.path.join(root, f), os.path.join(d, f))
+        with _spec_copy_lock:
+            if os.path.isdir(d):
+                return d
+            tmp = d + ".tmp"
+            os.makedirs(tmp)
+            src = os.path.join(VERIF, "spec")
+            for root, dirs, files in os.walk(src):
+                for f in files:
+                    if f.endswith((".tla", ".cfg")):
+                        shutil.copy(os.path.join(root, f), os.path.join(tmp, f))
+            os.rename(tmp, d)
         return d
 
     def tlc(self, module, cfg=None, *, cwd=None, workers=None, timeout=600, simulate=None,
@@ -175,7 +182,7 @@ class Ctx:
         n = len(lines)
         while i < n:
             ln = lines[i]
-            m = re.match(r'^Error: (Invariant|Action property|Temporal properties|Deadlock|The postcondition)(?: (\S+))?(.*)$', ln)
+            m = re.match(r'^Error: (Invariant|Action property|Temporal property|Temporal properties|Deadlock|The postcondition)(?: (\S+))?(.*)$', ln)
             if m:
                 kind = m.group(1)
                 name = m.group(2) or ""
